@@ -5,8 +5,12 @@ Seam: `is_subtype`, `is_proper_subtype`, `is_same_type`, `join_types`, `meet_typ
 (bundled typeshed) of a generated universe module (mc/c08_universe.py).
 
 Space (all counts are measured and reported):
-  * universe = ~48 atoms + every unary constructor over the atoms (Q: a 20-atom core) + every binary
-    constructor over a 12-atom core (Q: 8 atoms); N ~ 1080 (Q ~ 500) types;
+  * group "main" = ~51 atoms + every unary constructor over the atoms (Q: a 21-atom core) + every binary
+    constructor over a 12-atom core (Q: 8 atoms); ~1110 (Q ~ 500) types;
+  * group "tuples" = PEP 646 variadic tuples tuple[P.., *tuple[V, ...], S..] for every prefix and suffix of
+    length 0..2, every fixed tuple of length 0..3 over a small element core, plus related types
+    (object, Never, NT, Sequence[..], ..); ~770 (Q ~ 177) types;  all laws below are enumerated over all
+    pairs / chains WITHIN each group;
   * ALL ordered pairs: reflexivity (diagonal), proper => subtype (and is_same_type => proper and
     subtype, which is the same law through the definition of is_same_type), join upper bound, meet
     lower bound (both argument orders are separate ordered pairs);
@@ -17,7 +21,7 @@ Space (all counts are measured and reported):
   * cache independence: every query (5 ops x all ordered pairs) answered (i) right after
     reset_all_subtype_caches(), (ii) inside a forward sweep and (iii) inside a reverse sweep in which
     flagged variants of the subtype checks (other SubtypeKinds) are interleaved as perturbing queries;
-    T: (iv) after each single other query (incl. perturbing ones) over a 20-type core.
+    (iv) after each single other query (incl. perturbing ones) over a 23-type core (Q: 10 types).
 The oracle is the law itself (an algebraic identity between answers of the real functions); there is
 no re-implementation of any mypy rule here.
 
@@ -65,11 +69,12 @@ def universe(tier: str) -> cu.Universe:
 
 
 def eval_block(job: dict) -> dict:
-    """All ordered pairs (s, t) for s in job['rows'], t in the whole universe; runs in a fresh fork."""
+    """All ordered pairs (s, t) for s in job['rows'], t in the whole group job['group']; fresh fork."""
     U = _U
     assert U is not None
     T = U.types
-    N = len(T)
+    cols: list[int] = U.groups[job["group"]]
+    rcols = cols[::-1]
     rows: list[int] = job["rows"]
     fns = cl._fns()
     f_sub, f_proper, f_same, f_join, f_meet = fns["sub"], fns["proper"], fns["same"], fns["join"], fns["meet"]
@@ -93,7 +98,7 @@ def eval_block(job: dict) -> dict:
     ansR: dict[tuple[int, int], tuple] = {}
     for s in rows:
         S = T[s]
-        for t in range(N):
+        for t in cols:
             X = T[t]
             reset()
             a0 = bool(guarded(f_sub, s, t, "sub", S, X))
@@ -115,7 +120,7 @@ def eval_block(job: dict) -> dict:
         S = T[s]
         bits = 0
         pbits = 0
-        for t in range(N):
+        for t in cols:
             X = T[t]
             if (s, t) in crashed:
                 continue
@@ -135,7 +140,7 @@ def eval_block(job: dict) -> dict:
             if got != ref:
                 for k, op in enumerate(cl.OPS):
                     if got[k] != ref[k]:
-                        out["mismatch"].append(("forward", op, s, t, ref[k], got[k]))
+                        out["mismatch"].append(("forward", op, s, t, ref[k], got[k], None, job["group"]))
             if a:
                 bits |= 1 << t
             if p:
@@ -189,7 +194,7 @@ def eval_block(job: dict) -> dict:
     reset()
     for s in reversed(rows):
         S = T[s]
-        for t in range(N - 1, -1, -1):
+        for t in rcols:
             X = T[t]
             if (s, t) in crashed:
                 continue
@@ -204,8 +209,8 @@ def eval_block(job: dict) -> dict:
             if got != ref:
                 for k, op in enumerate(cl.OPS):
                     if got[k] != ref[k]:
-                        out["mismatch"].append(("reverse", op, s, t, ref[k], got[k]))
-    stats["queries_compared"] = 3 * 5 * len(rows) * N
+                        out["mismatch"].append(("reverse", op, s, t, ref[k], got[k], None, job["group"]))
+    stats["queries_compared"] = 3 * 5 * len(rows) * len(cols)
     out["stats"] = dict(stats)
     out["join_results"] = len(out["join_results"])
     out["meet_results"] = len(out["meet_results"])
@@ -216,7 +221,8 @@ def eval_block(job: dict) -> dict:
 
 
 def cache_queries(U: cu.Universe) -> tuple[list[tuple[str, int, int]], list[tuple[str, int, int]]]:
-    idx = [U.index[l] for l in cu.CACHE_CORE if l in U.index]
+    core = cu.CACHE_CORE if U.tier == "thorough" else cu.CACHE_CORE_Q
+    idx = [U.index[l] for l in core if l in U.index]
     q2 = [(op, s, t) for s in idx for t in idx for op in cl.OPS]
     q1 = [(op, s, t) for s in idx for t in idx for op in cl.OPS + cl.PERTURB]
     return q1, q2
@@ -255,7 +261,7 @@ def eval_cache_pairs(job: dict) -> dict:
             got = cl.answer(fns, op, T[s], T[t])
             n += 1
             if got != ref[k]:
-                mism.append(("after_one", op, s, t, ref[k], got, (op1, s1, t1)))
+                mism.append(("after_one", op, s, t, ref[k], got, (op1, s1, t1), None))
     return {"mismatch": mism, "pairs": n, "q1_leaving_cache_entries": influenced, "pairs_skipped_q1_left_no_cache_entry": skipped}
 
 
@@ -410,17 +416,17 @@ def group_simple(U: cu.Universe, fails: list[tuple], law: str) -> list[Violation
     return out
 
 
-def transitivity(U: cu.Universe, rows: dict[int, int]) -> tuple[list[Violation], dict]:
-    N = len(U)
+def transitivity(U: cu.Universe, rows: dict[int, int], members_idx: list[int]) -> tuple[list[Violation], dict]:
+    """All chains s <: t <: u among the Any-free members of one group (rows hold bits for the group only)."""
     AF = 0
-    for i in range(N):
+    for i in members_idx:
         if U.any_free[i]:
             AF |= 1 << i
     shapes = [cl.kind_of(t, 0) for t in U.types]
     chains = 0
     bad_triples: list[tuple[int, int, int]] = []
     n_bad = 0
-    for s in range(N):
+    for s in members_idx:
         if not U.any_free[s]:
             continue
         rs = rows[s]
@@ -467,7 +473,8 @@ def mismatch_violations(U: cu.Universe, mism: list[tuple]) -> list[Violation]:
     for (op, k1, k2), members in groups.items():
         m = members[0]
         mode, _op, s, t, ref, got = m[:6]
-        prior = m[6] if len(m) > 6 else None
+        prior = m[6]
+        group = m[7]
         modes = sorted({x[0] for x in members})
         what = (f"{op}({U.labels[s]!r}, {U.labels[t]!r}) = {ref!r} right after reset_all_subtype_caches() but {got!r} "
                 f"in mode {mode}" + (f" after the single query {prior[0]}({U.labels[prior[1]]!r}, {U.labels[prior[2]]!r})" if prior else "")
@@ -477,14 +484,21 @@ def mismatch_violations(U: cu.Universe, mism: list[tuple]) -> list[Violation]:
             {"kind": "cache", "tier": U.tier, "op": op, "s": U.labels[s], "t": U.labels[t], "mode": mode,
              "fresh_answer": ref, "cached_answer": got, "group_size": len(members),
              "prior": [prior[0], U.labels[prior[1]], U.labels[prior[2]]] if prior else None,
-             "block_rows": [U.labels[i] for i in block_of(s)] if not prior else None}))
+             "group": group, "block_rows": [U.labels[i] for i in block_of(s, group)] if not prior else None}))
     return out
 
 
-def block_of(s: int) -> list[int]:
+def blocks_of(U: cu.Universe, group: str) -> list[dict]:
+    g = U.groups[group]
+    return [{"rows": g[i : i + ROWS_PER_BLOCK], "group": group} for i in range(0, len(g), ROWS_PER_BLOCK)]
+
+
+def block_of(s: int, group: str) -> list[int]:
     assert _U is not None
-    b = s // ROWS_PER_BLOCK * ROWS_PER_BLOCK
-    return list(range(b, min(len(_U), b + ROWS_PER_BLOCK)))
+    for b in blocks_of(_U, group):
+        if s in b["rows"]:
+            return b["rows"]
+    raise KeyError(s)
 
 
 # --------------------------------------------------------------------------- run
@@ -498,30 +512,37 @@ def run(ctx: Ctx) -> Result:
     herr: list[str] = []
     violations: list[Violation] = []
 
-    # ---- all ordered pairs
-    blocks = [{"rows": list(range(i, min(N, i + ROWS_PER_BLOCK)))} for i in range(0, N, ROWS_PER_BLOCK)]
+    # ---- all ordered pairs within each group
+    blocks = [b for g in U.groups for b in blocks_of(U, g)]
     order = seeded_order(list(range(len(blocks))), ctx.seed)
     results: dict[int, dict] = {}
     for i, job, st, val in pmap(eval_block, [blocks[k] for k in order], fresh=True, timeout=3600):
         if st != "ok":
-            herr.append(f"block {job['rows'][0]}..{job['rows'][-1]} failed: {val}")
+            herr.append(f"block {job['group']}:{job['rows'][0]}..{job['rows'][-1]} failed: {val}")
             continue
         results[order[i]] = val
     if len(results) != len(blocks):
         raise RuntimeError(f"{len(blocks) - len(results)} of {len(blocks)} blocks did not complete: {herr[:2]}")
-    rows: dict[int, int] = {}
-    prows: dict[int, int] = {}
+    rows: dict[str, dict[int, int]] = {g: {} for g in U.groups}
+    prows: dict[str, dict[int, int]] = {g: {} for g in U.groups}
     fails: list[tuple] = []
+    seen_fail: set[tuple] = set()
     mism: list[tuple] = []
     stats: Counter = Counter()
+    pairs_by_group: Counter = Counter()
     join_asym: list = []
     njoin = nmeet = 0
     for k in range(len(blocks)):
         v = results[k]
-        rows.update(v["rows"])
-        prows.update(v["prows"])
-        fails.extend(v["fails"])
+        g = blocks[k]["group"]
+        rows[g].update(v["rows"])
+        prows[g].update(v["prows"])
+        for f in v["fails"]:
+            if f not in seen_fail:  # related types belong to both groups: their mutual pairs are evaluated twice
+                seen_fail.add(f)
+                fails.append(f)
         mism.extend(v["mismatch"])
+        pairs_by_group[g] += v["stats"].get("pairs", 0)
         for key, n in v["stats"].items():
             if key.startswith("cache_"):
                 stats[key] = max(stats[key], n)
@@ -539,12 +560,21 @@ def run(ctx: Ctx) -> Result:
     violations.extend(bv)
     for law in ("reflexivity", "proper_implies_subtype", "same_implies_subtype"):
         violations.extend(group_simple(U, [f for f in fails if f[0] == law], law))
-    tv, tstats = transitivity(U, rows)
-    violations.extend(tv)
+    tstats: dict[str, Any] = {"chains_checked": 0, "failing_triples": 0, "per_group": {}}
+    seen_tr: set[str] = set()
+    for g in U.groups:
+        tv, ts = transitivity(U, rows[g], U.groups[g])
+        tstats["per_group"][g] = ts
+        tstats["chains_checked"] += ts["chains_checked"]
+        tstats["failing_triples"] += ts["failing_triples"]
+        for v in tv:
+            if v.signature not in seen_tr:
+                seen_tr.add(v.signature)
+                violations.append(v)
 
-    # ---- cache mode (iv), thorough only
+    # ---- cache mode (iv): T over a 23-type core, Q over a 10-type core
     cache_iv = {"pairs": 0, "q1": 0, "q2": 0, "q1_leaving_cache_entries": 0, "pairs_skipped_q1_left_no_cache_entry": 0}
-    if ctx.thorough:
+    if True:
         q1, q2 = cache_queries(U)
         cache_iv["q1"], cache_iv["q2"] = len(q1), len(q2)
         per = max(1, len(q1) // 128)
@@ -604,19 +634,19 @@ def run(ctx: Ctx) -> Result:
         vac.append("join/meet never produced a type different from its arguments")
     if stats["cache_pos_entries_after_forward"] == 0 or stats["cache_neg_entries_after_forward"] == 0:
         vac.append("sweeps never populated the subtype caches")
-    if tstats["chains_checked"] < N:
+    if tstats["chains_checked"] < N or any(ts["chains_checked"] == 0 for ts in tstats["per_group"].values()):
         vac.append("no transitivity chains")
     if ustats["simplified_something"] == 0 or done != len(ujobs):
         vac.append("union simplification never removed an item / union jobs incomplete")
-    if ctx.thorough and cache_iv["q1_leaving_cache_entries"] == 0:
+    if cache_iv["q1_leaving_cache_entries"] == 0:
         vac.append("mode (iv): no prior query left a cache entry")
     if vac:
         raise RuntimeError("vacuous exploration: " + "; ".join(vac))
 
     af = [i for i in range(N) if not U.any_free[i]]
     samples = [
-        {"pair": [U.labels[1], U.labels[3]], "types": [U.strs[1], U.strs[3]], "sub": bool(rows[1] >> 3 & 1),
-         "proper": bool(prows[1] >> 3 & 1)},
+        {"pair": [U.labels[1], U.labels[3]], "types": [U.strs[1], U.strs[3]], "sub": bool(rows["main"][1] >> 3 & 1),
+         "proper": bool(prows["main"][1] >> 3 & 1)},
         {"join_order_sensitive_example": [
             {"s": U.labels[a], "t": U.labels[b], "join(s,t)": x, "join(t,s)": y} for a, b, x, y in join_asym[:2]]},
         {"universe_tail": U.labels[-3:], "rendered": U.strs[-3:]},
@@ -628,7 +658,8 @@ def run(ctx: Ctx) -> Result:
         "rule": "an ordered pair (s, t), s is not t, is non-trivial iff s <: t holds, or join(s, t) is not `object`, or "
                 "meet(s, t) is not Never (the lattice operation did something other than the trivial fallback)",
         "exhaustive": not herr or all("exception in" in h for h in herr),
-        "universe_size": N, "atoms": len(cu.ATOMS), "declarations_rejected_by_mypy": [d[0] for d in U.dropped],
+        "universe_size": N, "groups": {g: len(v) for g, v in U.groups.items()}, "ordered_pairs_by_group": dict(pairs_by_group),
+        "atoms": len(cu.ATOMS), "declarations_rejected_by_mypy": [d[0] for d in U.dropped],
         "ordered_pairs": stats["pairs"], "queries_compared_across_cache_modes": stats["queries_compared"],
         "subtype_true_offdiag": stats["sub_true_offdiag"], "proper_true_offdiag": stats["proper_true_offdiag"],
         "distinct_join_results_per_block_max": njoin, "distinct_meet_results_per_block_max": nmeet,
@@ -643,7 +674,10 @@ def run(ctx: Ctx) -> Result:
         "perturbing_query_kinds": cl.PERTURB,
         "time_pairs_s": round(t_pairs, 1), "samples": samples,
         "bounds": f"depth <= 1; unary constructors over {'all atoms' if ctx.thorough else '20 atoms'}, binary over "
-                  f"{'12' if ctx.thorough else '8'} atoms; unions of <= {maxlen} items from 20 types",
+                  f"{'12' if ctx.thorough else '8'} atoms; unions of <= {maxlen} items from 20 types; "
+                  f"group 'tuples': fixed tuples of length <= 3 and tuple[P.., *tuple[V, ...], S..] with prefix/suffix length 0..2 "
+                  f"over {cu.TUP_PS[ctx.tier]}, V over {cu.TUP_V[ctx.tier]}, plus {len(cu.TUP_RELATED)} related types; laws over all "
+                  f"pairs/chains within each group",
     }
     return Result(PROPERTY, LEVEL, cov, violations, assumptions=[
         "types come from one cold real build (bundled typeshed, default options, python 3.12) of the generated universe module",
@@ -723,7 +757,7 @@ def _replay_child(d: dict) -> list[tuple[str, str]]:
                 out.append((f"cache_dependence|{op}|{S}|{X}", f"{fresh!r} vs {got!r}"))
         else:
             rows = [U.index[l] for l in d["block_rows"]]
-            r = eval_block({"rows": rows})
+            r = eval_block({"rows": rows, "group": d.get("group", "main")})
             for m in r["mismatch"]:
                 if m[1] == op and m[2] == U.index[d["s"]] and m[3] == U.index[d["t"]]:
                     print(f"mode {m[0]}: fresh = {m[4]!r}, in sweep = {m[5]!r}")
